@@ -290,7 +290,10 @@ impl OtlpBuilder {
             // Process batches from each signal independently
             // This ensures one signal becoming unavailable doesn't
             // block the others
-            let _ = processors.into_future().await;
+            //
+            // Wait for every signal to finish, not just the first;
+            // each completes once its channel is closed and drained
+            let _ = processors.collect::<Vec<()>>().await;
         };
 
         // Spawn a background thread to process batches
